@@ -18,6 +18,7 @@ CONSTANTS
   KeepDead = FALSE
   Miu <- MiuAB
   Lens = {1}
+  InsertLast = FALSE
   HdrInMiu = FALSE
 CONSTRAINT Done
 CHECK_DEADLOCK FALSE
